@@ -69,6 +69,8 @@ def judge_one(desc, data, h, hits, out):
             out.append(Violation('readback-differs', 'accessors', 'API read-back differs from the reference decoding\n impl: %s\n ref : %s' % (canon, want), case))
         if kv.get('fixedmismatch', '0') != '0':
             out.append(Violation('readback-differs', 'fixed-array', 'get_fixed_array/get_element_count disagree with element-wise iteration (%s)' % desc, case))
+        if kv.get('getargsmismatch', '0') != '0':
+            out.append(Violation('readback-differs', 'get_args', 'dbus_message_get_args() returns other values than the iterator walk of the same message (%s)' % desc, case))
         if kv.get('ldsame') == '0':
             out.append(Violation('readback-differs', 'loader-vs-demarshal', 'loader and demarshal yield different messages', case))
         if kv.get('re0') != data.hex():
